@@ -89,6 +89,8 @@ def run(prop, tier, seed, replay=None):
             big.append(dict(id="big-%s-%d" % (shape, rep_i), seed=seed * 1000 + k, shape=shape, size=size,
                             budget=rnd.choice([40, 120, 300]), loss=rnd.choice([0, 2, 6]), dup=rnd.choice([0, 1, 3]),
                             expire=rnd.choice([0, 1, 3]), inject=rnd.choice([0, 2, 4]), create=rnd.choice([0, 2, 5])))
+    for sz in ([150] if quick else [101, 150, 260]):
+        big.append(dict(id="burst-%d" % sz, seed=seed, shape="burst", size=sz))
     if not quick:
         big.append(dict(id="big-fat-chunks", seed=seed, shape="behind", size=24, budget=60, loss=1, dup=1, expire=1, inject=1, create=1, fat=True))
         for i in range(4):
